@@ -420,6 +420,8 @@ def run(ck, tier):
     _acc2.run2(ck, F, 'C18')
     from . import relations as _rel
     _rel.run(ck, F, 'C18')
+    from . import guards as _grd
+    _grd.run(ck, F, 'C18')
     # resumable varint decoder of the Avro reader: a short read must not lose or mis-shift the partial value (rules of C14)
     from . import c14, core
     c14.run_resumable(core.Renamed(ck, "C14.", "C18."), F)
